@@ -2,11 +2,11 @@
 //! Reported under coverage.bounded / native_cross_check - never counted as proof.
 use std::panic::{catch_unwind, AssertUnwindSafe};
 
-use lightmotif::abc::{Alphabet, AminoAcid, Background, Dna, Nucleotide, Protein, Symbol};
+use lightmotif::abc::{Alphabet, AminoAcid, Background, Dna, Nucleotide, Protein, Pseudocounts, Symbol};
 use lightmotif::dense::{DenseMatrix, MatrixCoordinates};
 use lightmotif::num::{Unsigned, U16, U32};
 use lightmotif::pli::{Encode, Maximum, Pipeline, Score, Stripe, Threshold};
-use lightmotif::pwm::{CountMatrix, ScoringMatrix};
+use lightmotif::pwm::{CountMatrix, FrequencyMatrix, ScoringMatrix};
 use lightmotif::scores::StripedScores;
 use lightmotif::seq::{EncodedSequence, StripedSequence, SymbolCount};
 
@@ -321,6 +321,25 @@ pub fn sweep_c07(tier: &str, seed: u64) -> (usize, Vec<String>) {
         for (nm, arm) in arms() { chk8!(nm, Pipeline::<Dna, Dispatch>::with_backend(arm)); }
         if fails.len() > 6 { return (n, fails); }
     } }
+    // tall 8-bit matrices (more than 2^15 rows: over a million positions scored in one call): the arg-maximum sits in the last row
+    for nrows in [32767usize, 32768, 32769, 50000, 65536] {
+        let mut rows8: Vec<Vec<u8>> = (0..nrows).map(|i| (0..32).map(|j| ((i * 7 + j * 13) % 200) as u8).collect()).collect();
+        let col = nrows % 32;
+        rows8[100][5] = 220; rows8[nrows - 1][col] = 231;
+        let sc8 = scores_from(&rows8);
+        let case8 = format!("u8 rows={} maximum 231 at ({},{})", nrows, nrows - 1, col);
+        macro_rules! chkt { ($name:expr, $p:expr) => {{ n += 1; let p = $p;
+            match catch_unwind(AssertUnwindSafe(|| (Maximum::<u8, U32>::max(&p, &sc8), Maximum::<u8, U32>::argmax(&p, &sc8)))) {
+                Err(_) => fails.push(fail("pli_max", format!("{}: panic at {}", $name, panic_loc()), case8.clone())),
+                Ok((m, am)) => {
+                    if m != Some(231) { fails.push(fail("pli_max", format!("{}: u8 max = {:?}, largest cell is 231", $name, m), case8.clone())); }
+                    match am { Some(mc) if mc.row < nrows && mc.col < 32 && rows8[mc.row][mc.col] == 231 => {}, other => fails.push(fail("pli_argmax", format!("{}: u8 argmax {:?} does not hold the maximum 231", $name, other.map(|c| (c.row, c.col))), case8.clone())) }
+                } } }}; }
+        chkt!("generic", Pipeline::<Dna, _>::generic());
+        if let Ok(p) = Pipeline::<Dna, _>::avx2() { chkt!("avx2", p); }
+        chkt!("dispatch", Pipeline::<Dna, _>::dispatch());
+        if fails.len() > 6 { return (n, fails); }
+    }
     (n, fails)
 }
 
@@ -464,6 +483,59 @@ pub fn sweep_c09(tier: &str, seed: u64) -> (usize, Vec<String>) {
                 let sb = wm.to_scoring_with_base(base);
                 for i in 0..m { for k in 0..4 { let want = (wm.matrix()[i][k] as f64).ln() / (base as f64).ln(); let g = sb.matrix()[i][k] as f64; if (g - want).abs() > 1e-4 * (1.0 + want.abs()) { f.push(fail("pwm_to_scoring_with_base", format!("base {} score[{}][{}] = {} expected {}", base, i, k, g, want), case.clone())); } } }
             }
+            // non-uniform backgrounds, incl. a zero among the regular symbols and weight on the wildcard
+            for bgv in [[0.5f32, 0.5, 0.0, 0.0, 0.0], [0.125, 0.375, 0.125, 0.375, 0.0], [0.25, 0.25, 0.25, 0.125, 0.125]] {
+                let b = Background::<Dna>::new(bgv).unwrap();
+                let (w2, s2) = (fm.to_weight(b.clone()), fm.to_scoring(b.clone()));
+                for i in 0..m { for k in 0..5 {
+                    let wantw = if bgv[k] == 0.0 { 0.0 } else { fm.matrix()[i][k] / bgv[k] };
+                    if !feq(w2.matrix()[i][k], wantw) { f.push(fail("pwm_to_weight", format!("background {:?}: weight[{}][{}] = {} expected {}", bgv, i, k, w2.matrix()[i][k], wantw), case.clone())); }
+                    let wants = if bgv[k] == 0.0 { f32::NEG_INFINITY } else { wantw.log2() };
+                    let g = s2.matrix()[i][k];
+                    if !(g == wants || (g - wants).abs() < 1e-4) { f.push(fail("pwm_to_scoring", format!("background {:?}: score[{}][{}] = {} expected {}", bgv, i, k, g, wants), case.clone())); }
+                } }
+                if w2.background().frequencies() != &bgv[..] || s2.background().frequencies() != &bgv[..] { f.push(fail("pwm_to_weight", "the matrix does not carry the background it was built with".into(), case.clone())); }
+            }
+            // per-symbol pseudocounts (incl. weight on the wildcard)
+            {
+                let pv = [0.5f32, 0.25, 0.0, 1.0, 0.125];
+                let mut pc = Pseudocounts::<Dna>::from(0.0f32); pc.as_mut().copy_from_slice(&pv);
+                let fm2 = cm.to_freq(pc);
+                for i in 0..m { let tot: f32 = (0..5).map(|k| cm.matrix()[i][k] as f32 + pv[k]).sum(); for k in 0..5 { let want = (cm.matrix()[i][k] as f32 + pv[k]) / tot; if (fm2.matrix()[i][k] - want).abs() > 1e-6 { f.push(fail("pwm_to_freq", format!("pseudocount vector: freq[{}][{}] = {} expected {}", i, k, fm2.matrix()[i][k], want), case.clone())); } } }
+            }
+            // count matrices built from raw tables (CountMatrix::new accepts unequal row totals): each row is normalised by ITS OWN total
+            {
+                let mut raw = DenseMatrix::<u32, <Dna as Alphabet>::K>::new(m);
+                let mut r2 = Rng::new(rep as u64 * 31 + 5);
+                for i in 0..m { for k in 0..5 { raw[i][k] = if k == 4 && rep % 2 == 0 { 0 } else { r2.below(9) as u32 + if k == 0 { 1 } else { 0 } }; } }
+                if let Ok(cm2) = CountMatrix::<Dna>::new(raw.clone()) {
+                    for pseudo2 in [0.0f32, 0.5] {
+                        let fm3 = cm2.to_freq(pseudo2);
+                        for i in 0..m { let tot: f32 = (0..5).map(|k| raw[i][k] as f32 + if k < 4 { pseudo2 } else { 0.0 }).sum(); for k in 0..5 { let want = (raw[i][k] as f32 + if k < 4 { pseudo2 } else { 0.0 }) / tot; if (fm3.matrix()[i][k] - want).abs() > 1e-6 { f.push(fail("pwm_to_freq", format!("raw table {:?} pseudo {}: freq[{}][{}] = {} expected {}", (0..m).map(|i| raw[i].to_vec()).collect::<Vec<_>>(), pseudo2, i, k, fm3.matrix()[i][k], want), case.clone())); } } }
+                    }
+                }
+            }
+            // backgrounds from counts / sequences: normalised symbol counts, with or without the wildcard
+            for unknown in [false, true] {
+                let encs: Vec<EncodedSequence<Dna>> = sites.iter().map(|s| EncodedSequence::<Dna>::new(s.clone())).collect();
+                let mut cnt = [0usize; 5];
+                for s_ in &sites { for x in s_ { if unknown || x.as_index() != 4 { cnt[x.as_index()] += 1; } } }
+                let tot: usize = cnt.iter().sum();
+                let got = Background::<Dna>::from_sequences(sites.iter().map(|e| &e[..]), unknown);
+                match got {
+                    Ok(b) => { if tot == 0 { f.push(fail("abc_background_from_sequences", "background built from no counted symbol".into(), case.clone())); } else { for k in 0..5 { if (b.frequencies()[k] - cnt[k] as f32 / tot as f32).abs() > 1e-6 { f.push(fail("abc_background_from_sequences", format!("unknown={}: frequency[{}] = {} expected {}/{}", unknown, k, b.frequencies()[k], cnt[k], tot), case.clone())); } } } }
+                    Err(_) => { if tot != 0 { f.push(fail("abc_background_from_sequences", "rejected although symbols were counted".into(), case.clone())); } }
+                }
+                let mut c1 = [0usize; 5]; for x in &sites[0] { if unknown || x.as_index() != 4 { c1[x.as_index()] += 1; } }
+                let t1: usize = c1.iter().sum();
+                if let Ok(b) = Background::<Dna>::from_sequence(&sites[0][..], unknown) { for k in 0..5 { if t1 == 0 || (b.frequencies()[k] - c1[k] as f32 / t1 as f32).abs() > 1e-6 { f.push(fail("abc_background_from_sequence", format!("unknown={}: frequency[{}] wrong", unknown, k), case.clone())); } } } else if t1 != 0 { f.push(fail("abc_background_from_sequence", "rejected although symbols were counted".into(), case.clone())); }
+            }
+            // frequency matrices are validated: rows must sum to one
+            {
+                let ok = FrequencyMatrix::<Dna>::new(fm.matrix().clone()).is_ok();
+                let mut bad = fm.matrix().clone(); bad[m - 1][0] += 0.5;
+                if !ok || FrequencyMatrix::<Dna>::new(bad).is_ok() { f.push(fail("pwm_freq_new", "row-sum validation wrong".into(), case.clone())); }
+            }
             // min/max score bound every wildcard-free window
             let (lo, hi) = (sm1.min_score(), sm1.max_score());
             let w = rand_syms::<Dna>(&mut Rng::new(rep as u64 + 7), m, false);
@@ -480,6 +552,19 @@ pub fn sweep_c09(tier: &str, seed: u64) -> (usize, Vec<String>) {
             let smn = fm.to_scoring(bgn.clone());
             for (nm, a, b) in [("freq", fm.reverse_complement().matrix().clone(), fm.matrix().clone()), ("weight", wm.reverse_complement().matrix().clone(), wm.matrix().clone()), ("scoring", sm1.reverse_complement().matrix().clone(), sm1.matrix().clone()), ("scoring(N bg)", smn.reverse_complement().matrix().clone(), smn.matrix().clone())] {
                 for i in 0..m { for k in 0..5 { let (x, y) = (a[i][k], b[m - 1 - i][comp[k]]); if !feq(x, y) { f.push(fail(if nm == "freq" { "pwm_freq_rc" } else if nm == "weight" { "pwm_weight_rc" } else { "pwm_scoring_rc" }, format!("{} rc[{}][{}] = {} expected {}", nm, i, k, x, y), case.clone())); } } }
+            }
+            // the reverse complement carries the (strand-symmetric) background it was built with - also one estimated from counts,
+            // whose f32 frequencies need not sum to exactly one
+            {
+                let mut gc = lightmotif::abc::Background::<Dna>::uniform();
+                for cv in [[5usize, 1, 5, 1, 0], [3, 4, 3, 4, 0], [7, 2, 7, 2, 0]] {
+                    let mut cnts = SymbolCount::<Dna>::count_symbols(&&sites[0][..]); for k in 0..5 { cnts[k] = cv[k]; }
+                    if let Ok(b) = Background::<Dna>::from_counts(&cnts) { gc = b; }
+                    let (w3, s3) = (fm.to_weight(gc.clone()), fm.to_scoring(gc.clone()));
+                    if w3.reverse_complement().background().frequencies() != gc.frequencies() || s3.reverse_complement().background().frequencies() != gc.frequencies() { f.push(fail("pwm_scoring_rc", format!("reverse complement changed the background {:?}", gc.frequencies()), case.clone())); }
+                    if w3.reverse_complement().reverse_complement() != w3 { f.push(fail("pwm_weight_rc", "rc(rc(weights)) != weights".into(), case.clone())); }
+                    if s3.reverse_complement().reverse_complement() != s3 && !s3.matrix().iter().any(|r| r.iter().any(|x| x.is_nan())) { f.push(fail("pwm_scoring_rc", "rc(rc(scores)) != scores".into(), case.clone())); }
+                }
             }
             // commutation counts -> scoring, and the strand identity on a sequence with wildcards
             let via = cm.reverse_complement().to_freq(pseudo).to_scoring(bgn.clone());
@@ -516,7 +601,11 @@ pub fn sweep_c19(tier: &str, seed: u64) -> (usize, Vec<String>) {
                 1 => { if !model.is_empty() { let (i, j) = (rng.below(model.len()), rng.below(cols)); let v: $t = $mk(rng.below(200)); m[i][j] = v; model[i][j] = v; trace.push(format!("write({},{})", i, j)); } }
                 2 => { let v: $t = $mk(rng.below(200)); m.fill(v); for r in model.iter_mut() { for x in r.iter_mut() { *x = v; } } trace.push("fill".into()); }
                 3 => { let k = rng.below(6); m = DenseMatrix::<$t, $c>::new(k); model = vec![vec![<$t>::default(); cols]; k]; trace.push(format!("new({})", k)); }
-                4 => { let c2 = m.clone(); if c2 != m { panic!("clone != original"); } let mut c3 = m.clone(); if !model.is_empty() { let i = rng.below(model.len()); c3[i][0] = $mk(201); if c3 == m && model[i][0] != $mk(201) { panic!("equality ignores a differing cell"); } let mut c4 = m.clone(); c4.resize(model.len() - 1); if c4 == m { panic!("equality ignores the row count (shrunk clone)"); } } let mut c5 = m.clone(); c5.resize(model.len() + 1); if c5 == m { panic!("equality ignores the row count (grown clone)"); } trace.push("clone/eq".into()); }
+                4 => { let c2 = m.clone(); if c2 != m { panic!("clone != original"); } let mut c3 = m.clone(); if !model.is_empty() { let i = rng.below(model.len()); c3[i][0] = $mk(201); if c3 == m && model[i][0] != $mk(201) { panic!("equality ignores a differing cell"); } let mut c4 = m.clone(); c4.resize(model.len() - 1); if c4 == m { panic!("equality ignores the row count (shrunk clone)"); } } let mut c5 = m.clone(); c5.resize(model.len() + 1); if c5 == m { panic!("equality ignores the row count (grown clone)"); }
+                       // clone_from / clone_into onto longer, shorter and equally long destinations
+                       for extra in [0usize, 1, 3] { let mut c6 = DenseMatrix::<$t, $c>::new(model.len() + extra); c6.fill($mk(77)); c6.clone_from(&m); if c6 != m || c6.rows() != m.rows() || c6.iter().count() != model.len() { panic!("clone_from onto a matrix with {} more rows does not give an equal matrix", extra); } }
+                       if model.len() > 1 { let mut c7 = DenseMatrix::<$t, $c>::new(model.len() - 1); c7.clone_from(&m); if c7 != m || c7.rows() != m.rows() { panic!("clone_from onto a shorter matrix does not give an equal matrix"); } }
+                       trace.push("clone/eq".into()); }
                 5 => { for (i, row) in m.iter_mut().enumerate() { row[0] = $mk(i % 100); } for (i, r) in model.iter_mut().enumerate() { r[0] = $mk(i % 100); } trace.push("iter_mut".into()); }
                 _ => { let rows: Vec<Vec<$t>> = (0..rng.below(5)).map(|_| (0..cols).map(|_| $mk(rng.below(200))).collect()).collect(); m = DenseMatrix::<$t, $c>::from_rows(rows.iter()); model = rows; trace.push("from_rows".into()); }
             } }));
